@@ -19,6 +19,8 @@ const (
 	InvalidSig = "invalid-signature"
 	Unverified = "unverified"
 	Ambiguous  = "ambiguous-key"
+	Mismatch   = "mismatched-verifier" // the collection handed back a verifier for another key
+	LookupErr  = "lookup-error"        // the collection reported an error of its own
 )
 
 type Sig struct {
@@ -37,7 +39,10 @@ type Result struct {
 }
 
 // Lookup describes the known-verifier set: how many verifiers are registered under
-// (name, hash), and, when exactly one is, its verification function.
+// (name, hash), and, when exactly one is, its verification function. A count of -1 says that the
+// collection answers with a verifier whose name or key hash differs from the ones asked for (which
+// Open must not use: a signature is only ever checked by its own key's verifier), -2 that it answers
+// with an error other than "unknown key" (which Open returns).
 type Lookup func(name string, hash uint32) (count int, verify func(text, sig []byte) bool)
 
 func ValidName(name string) bool {
@@ -106,6 +111,10 @@ func Open(msg []byte, known Lookup) Result {
 		hash := binary.BigEndian.Uint32(raw[:4])
 		count, verify := known(name, hash)
 		switch {
+		case count == -1:
+			return Result{Class: Mismatch, Text: res.Text}
+		case count == -2:
+			return Result{Class: LookupErr, Text: res.Text}
 		case count == 0:
 			if !seenLine[rest] {
 				seenLine[rest] = true
